@@ -8,9 +8,10 @@ mkdir -p .build/bin .build/rw/sched-$TAG
 cp /repo/go.sum ./go.sum 2>/dev/null
 go build -o .build/bin/rewrite-$TAG ./tools/rewrite || exit 2
 rm -rf .build/rw/sched-$TAG && mkdir -p .build/rw/sched-$TAG
-FILES="$(ls /repo/models/*/generated_*.go) /repo/cmd/ow-sim/main.go /repo/cmd/ow-sim/running.go /repo/io/hdf5_util.go"
+# every non-test Go file of the packages that may start goroutines or take locks; files in which nothing is rewritten stay as they are
+FILES="$(find /repo/models /repo/io /repo/sim /repo/cmd/ow-sim -name '*.go' ! -name '*_test.go' | sort)"
 # exit 3 = this tree builds, but it cannot be instrumented (a construct the rewriter does not model): the caller then
 # reports "not decided" instead of failing
 cannot() { echo "$1" >&2; if go build -o /dev/null ./cmd/owcheck 2>/dev/null; then exit 3; fi; exit 2; }
-.build/bin/rewrite-$TAG -out .build/rw/sched-$TAG $FILES || cannot "the rewriter cannot model this tree"
+.build/bin/rewrite-$TAG -skip-unchanged -out .build/rw/sched-$TAG $FILES || cannot "the rewriter cannot model this tree"
 go build -ldflags '-X owverif.local/verif/vrt.Instrumented=yes' -race -overlay .build/rw/sched-$TAG/overlay.json -o .build/owcheck-sched-$TAG ./cmd/owcheck || cannot "instrumented build failed"
